@@ -247,6 +247,59 @@ theorem C20_call_da_order_partial (cfg : Cfg) (da : Nat → Fetch) (s : St) (max
     | none => simp [pushQ, hpd] at hq2
     | some e => simp [h3 (by simp [hpd])]
 
+/-! ### several calls without push-back -/
+
+/-- calls of a caller that sends no `LastBatchData`, on a fixed DA -/
+def playNoEcho (cfg : Cfg) (da : Nat → Fetch) : St → List Nat → St × List Item
+  | s, [] => (s, [])
+  | s, m :: ms =>
+    ((playNoEcho cfg da (getNextBatch cfg da s { max := m }).st ms).1,
+     (getNextBatch cfg da s { max := m }).resp.items ++ (playNoEcho cfg da (getNextBatch cfg da s { max := m }).st ms).2)
+
+/-- the excluding hypothesis: no call of the history leaves anything in the carry-over -/
+def neverPushesBack (cfg : Cfg) (da : Nat → Fetch) : St → List Nat → Prop
+  | _, [] => True
+  | s, m :: ms => (getNextBatch cfg da s { max := m }).st.queue = [] ∧
+      neverPushesBack cfg da (getNextBatch cfg da s { max := m }).st ms
+
+/-- **DA order, exactly once, nothing dropped (partial).** On a fixed DA, for any number of calls
+with any limits, *as long as no call pushes anything back*: the concatenation of all released
+batches is exactly the content of the `n` consecutive heights from the first scan position, by
+height and position, each tx once; and the scan position has advanced by exactly `n`. -/
+theorem C20_da_order_partial (cfg : Cfg) (da : Nat → Fetch) (s : St) (ms : List Nat)
+    (hq : s.queue = []) (hn : neverPushesBack cfg da s ms) :
+    ∃ n, (playNoEcho cfg da s ms).2 = daItems da (persistedPos cfg s) n ∧
+      persistedPos cfg (playNoEcho cfg da s ms).1 = persistedPos cfg s + n := by
+  induction ms generalizing s with
+  | nil => exact ⟨0, by simp [playNoEcho, daItems]⟩
+  | cons m ms ih =>
+    obtain ⟨n1, h1, h2, _⟩ := C20_call_da_order_partial cfg da s m hq
+    have hq1 := hn.1
+    have hp1 : persistedPos cfg (getNextBatch cfg da s { max := m }).st = persistedPos cfg s + n1 := by
+      have := h2 ⟨by simp [hq1, flat], hq1⟩
+      have hle := daStart_le_pos cfg s
+      exact pos_of_scanP cfg _ _ this (by omega)
+    obtain ⟨n2, g1, g2⟩ := ih _ hq1 hn.2
+    refine ⟨n1 + n2, ?_, ?_⟩
+    · simp only [playNoEcho]
+      rw [daItems_add, g1, hp1, ← h1, hq1]
+      simp [flat]
+    · simp only [playNoEcho]
+      rw [g2, hp1]; omega
+
+/-- an echo that is not ahead of the scan position (what `block.Manager` sends) changes nothing -/
+theorem C20_echo_irrelevant (cfg : Cfg) (da : Nat → Fetch) (s : St) (r : Req) (id : Bytes) (e : Nat)
+    (h1 : r.last.getLast? = some id) (h2 : splitHeight id = some e) (h3 : e ≤ persistedPos cfg s) :
+    getNextBatch cfg da s r = getNextBatch cfg da s { r with last := [] } := by
+  have h4 : ¬ e > persistedPos cfg s := by omega
+  simp [getNextBatch, h1, h2, h4]
+
+/-- non-vacuity: two calls on `w1DA` with drift 0 and the default limit never push back -/
+example : neverPushesBack ⟨1, 0⟩ w1DA.fetch {} [0, 0] ∧
+    (playNoEcho ⟨1, 0⟩ w1DA.fetch {} [0, 0]).2 = daItems w1DA.fetch 1 2 := by
+  unfold neverPushesBack neverPushesBack neverPushesBack
+  decide +kernel
+
 /-- non-vacuity: a call that releases a prefix, pushes back the rest and leaves the position behind -/
 example : let o := getNextBatch ⟨1, 2⟩ w1DA.fetch {} { max := 5 }
     o.resp.items ++ flat o.st.queue = daItems w1DA.fetch 1 1 ∧ o.st.queue ≠ [] ∧ o.st.scanP = some 1 := by
